@@ -93,6 +93,9 @@ def molecule(n, csel, catom, charges, btype, nmodels=1):
     return arr
 
 
+HEADER_TEXTS = [("M  ENDO-7", ""), ("mol", "M  END of the route"), ("> <name>", "> <x>"), ("M  V30 END CTAB", "V2000"), ("1  0  0  0  0  0  0  0  0  0999 V2000", "M  CHG  1   1   1")]
+
+
 def check_mol(n, csel, catom, c0, btype, version, kind):
     import biotite.structure as struc
     from biotite.structure.io.mol import MOLFile, SDFile, SDRecord, Header, Metadata
@@ -105,12 +108,43 @@ def check_mol(n, csel, catom, c0, btype, version, kind):
         if kind == 0:
             f.header = Header(mol_name="mol", initials="AB", program="prog", dimensions="3D", comments="a comment")
             f.set_structure(atoms, version=ver)
+            # header lines are free text: they may look like the lines that structure the file
+            for nm, cm in HEADER_TEXTS:
+                h = MOLFile()
+                h.header = Header(mol_name=nm, comments=cm)
+                h.set_structure(atoms, version=ver)
+                o = io.StringIO()
+                h.write(o)
+                hb = MOLFile.read(io.StringIO(o.getvalue()))
+                if hb.header.mol_name != nm or hb.header.comments != cm:
+                    return f"MOL header ({nm!r}, {cm!r}) read back as ({hb.header.mol_name!r}, {hb.header.comments!r})"
+                hs = hb.get_structure()
+                if hs.element.tolist() != atoms.element.tolist() or hs.bonds.as_set() != atoms.bonds.as_set():
+                    return f"molecule under the MOL header ({nm!r}, {cm!r}) read back differently"
         else:
             rec = SDRecord()
             rec.header = Header(mol_name="r1")
             rec.set_structure(atoms, version=ver)
             rec.metadata = Metadata({"Some_Key": "line1\nline2", Metadata.Key(number=3, name="N.x", registry_internal=7, registry_external="E-1"): "v"})
             f["r1"] = rec
+            for nm, cm in HEADER_TEXTS:
+                if nm.startswith("$$$$") or cm.startswith("$$$$"):
+                    continue          # '$$$$' at a line start is the record separator of the format itself
+                hr = SDRecord()
+                hr.header = Header(mol_name=nm, comments=cm)
+                hr.set_structure(atoms, version=ver)
+                other = SDRecord()
+                other.header = Header(mol_name="other")
+                other.set_structure(atoms, version=ver)
+                hf = SDFile({nm: hr, "other": other})
+                o = io.StringIO()
+                hf.write(o)
+                hb = SDFile.read(io.StringIO(o.getvalue()))
+                if list(hb.keys()) != [nm, "other"] or hb[nm].header.comments != cm or hb[nm].header.mol_name != nm:
+                    return f"SD record header ({nm!r}, {cm!r}) read back as {list(hb.keys())}"
+                hs = hb[nm].get_structure()
+                if hs.element.tolist() != atoms.element.tolist() or hs.bonds.as_set() != atoms.bonds.as_set():
+                    return f"molecule under the SD record header ({nm!r}, {cm!r}) read back differently"
             rec2 = SDRecord()
             rec2.header = Header(mol_name="r0")
             rec2.set_structure(molecule(2, 0, 0, [0], 0), version=ver)
@@ -229,6 +263,15 @@ def check_rdkit(n, btype, nmodels, c0):
     back = rd.from_mol(mol, add_hydrogen=False)
     if back.stack_depth() != nmodels:
         return f"{back.stack_depth()} models back"
+    # documented: the models become conformers with IDs counting from 0, and each of them can be asked for by its ID
+    ids = [c.GetId() for c in mol.GetConformers()]
+    if ids != list(range(nmodels)):
+        return f"conformer IDs {ids} for {nmodels} models"
+    for k in range(nmodels):
+        one = rd.from_mol(mol, conformer_id=k, add_hydrogen=False)
+        want_k = src.coord[k] if nmodels > 1 else src.coord
+        if not isinstance(one, struc.AtomArray) or not np.allclose(one.coord, want_k, atol=1e-4):
+            return f"conformer {k} does not return model {k}"
     if back.element.tolist() != atoms.element.tolist() or back.charge.tolist() != atoms.charge.tolist():
         return f"elements/charges {back.element.tolist()} {back.charge.tolist()}"
     want = src.coord if nmodels > 1 else src.coord[None]
